@@ -412,7 +412,7 @@ PROPS['C01']['assumptions'] = [a for a in PROPS['C01'].get('assumptions', []) if
 PROPS['C02']['assumptions'] = [a for a in PROPS['C02'].get('assumptions', []) if 'not under contract yet' not in a] + \
     ['Encoder.process_string_compressed, Encoder.process and Coder.process_members are bounded only']
 PROPS['C02']['note'] = ('Under contract: every encoder primitive except process_string_compressed (numeric / code-flag / string / constant / new reference value, '
-                        'uncompressed and compressed), nbits_for_uint, minmax, the column status helper, descriptor packing F:2 X:6 Y:8, section padding and length '
-                        'back-patch (C04). Assumed: the interface contracts of the abstract primitives inside Coder and the summary of process_members.')
+                        'uncompressed and compressed), nbits_for_uint, minmax, the column status helper, descriptor packing F:2 X:6 Y:8 (section padding and '
+                        'length back-patch: see C04). Assumed: the interface contracts of the abstract primitives inside Coder and the summary of process_members.')
 PROPS['C10']['claim'] += (' Re-compression of the reduced columns: the compressed numeric / code-flag / new-reference-value writers are under contract (C02, C05); a '
                           'negative 203YYY reference value is written sign-magnitude in compressed data as well.')
